@@ -1,6 +1,716 @@
 import OnetVerif.Model.C06
-/-! Property C06 — property theorems, negation witnesses, `_partial` variants and non-vacuity
-examples only (helper lemmas that need Mathlib go to OnetVerif/Proofs/). -/
+/-! Property C06 — a tree learnt from a peer or rebuilt from its serialised form is the same tree.
+Property theorems, the negation witness of the one statement the code does not meet, `_partial`
+variants, non-vacuity examples and the lemmas they need (core Lean only). -/
 namespace C06
 
+/-! ### tree part: flatten to ids, rebuild against the roster -/
+
+/-- every node sits at a valid roster position that holds exactly its server -/
+def NodesOK (ro : List Server) : TN → Prop
+  | .nil => True
+  | .node _ sid key idx _ c s => ro[idx]? = some ⟨sid, key⟩ ∧ NodesOK ro c ∧ NodesOK ro s
+
+/-- a tree as the constructors and generators make it: it carries roster `ro`, has one root, its
+nodes point at their servers' roster positions and its aggregates are the computed ones -/
+def Tree.WF (t : Tree) (ro : Roster) : Prop :=
+  t.roster = some ro ∧ (copyTree t.root).len = 1 ∧ NodesOK ro.list t.root ∧ (aggregate t.root).1 = t.root
+
+/-- the servers of a roster are pairwise distinct -/
+def Roster.Distinct (ro : Roster) : Prop := (ro.list.map (·.sid)).Nodup
+
+private theorem search_of_distinct : ∀ (l : List Server) (idx : Nat) (e : Server),
+    (l.map (·.sid)).Nodup → l[idx]? = some e → search l e.sid = some (idx, e) := by
+  intro l
+  induction l with
+  | nil => intro idx e _ h; simp at h
+  | cons x xs ih =>
+    intro idx e hn h
+    simp only [List.map_cons, List.nodup_cons] at hn
+    cases idx with
+    | zero =>
+      simp only [List.getElem?_cons_zero, Option.some.injEq] at h
+      subst h
+      simp [search]
+    | succ i =>
+      simp only [List.getElem?_cons_succ] at h
+      have hne : x.sid ≠ e.sid := by
+        intro heq
+        apply hn.1
+        rw [heq]
+        exact List.mem_map_of_mem (List.mem_of_getElem? h)
+      simp [search, hne, ih i e hn.2 h]
+
+/-- the forest with every aggregate field cleared -/
+def clearAgg : TN → TN
+  | .nil => .nil
+  | .node nid sid key idx _ c s => .node nid sid key idx 0 (clearAgg c) (clearAgg s)
+
+private theorem aggregate_clearAgg (f : TN) : aggregate (clearAgg f) = aggregate f := by
+  induction f with
+  | nil => rfl
+  | node nid sid key idx agg c s ihc ihs => simp [clearAgg, aggregate, ihc, ihs]
+
+private theorem makeForest_copyTree (ro : List Server) (hd : (ro.map (·.sid)).Nodup) :
+    ∀ f, NodesOK ro f → makeForest ro (copyTree f) = some (clearAgg f) := by
+  intro f
+  induction f with
+  | nil => intro _; rfl
+  | node nid sid key idx agg c s ihc ihs =>
+    intro h
+    obtain ⟨h1, h2, h3⟩ := h
+    have := search_of_distinct ro idx ⟨sid, key⟩ hd h1
+    simp only at this
+    simp [copyTree, makeForest, this, ihc h2, ihs h3, clearAgg]
+
+/-- **round trip**: for every tree over a roster of pairwise distinct servers, flattening it to
+identifiers (`MakeTreeMarshal`) and rebuilding it against the roster (`MakeTree`) gives back the
+very same tree: tree id, roster, node ids, structure, child order, roster positions and every
+subtree aggregate. -/
+theorem c06_roundtrip (t : Tree) (ro : Roster) (hd : ro.Distinct) (h : t.WF ro) :
+    makeTree (makeTreeMarshal t) (some ro) = .ok t := by
+  obtain ⟨h1, h2, h3, h4⟩ := h
+  cases t with
+  | mk id roster root =>
+    simp only at h1 h2 h3 h4
+    subst h1
+    simp only [makeTree, makeTreeMarshal, ne_eq, not_true_eq_false, if_false, h2,
+      makeForest_copyTree ro.list hd root h3, aggregate_clearAgg, h4]
+
+/-- the same through the serialised form, `Marshal` / `NewTreeFromMarshal`, for any codec whose
+decoder inverts its encoder -/
+theorem c06_marshal_roundtrip {B} (cd : Codec B) (hcodec : ∀ x, cd.decTM (cd.encTM x) = some x)
+    (t : Tree) (ro : Roster) (hd : ro.Distinct) (h : t.WF ro) :
+    newTreeFromMarshal cd (marshal cd t) (some ro) = .ok t := by
+  simp only [newTreeFromMarshal, marshal, hcodec]
+  exact c06_roundtrip t ro hd h
+
+/-- and through the binary form that carries the roster along, `BinaryMarshaler` /
+`BinaryUnmarshaler` -/
+theorem c06_binary_roundtrip {B} (cd : Codec B) (hcodec : ∀ x, cd.decTM (cd.encTM x) = some x)
+    (hcodec2 : ∀ x, cd.decTBM (cd.encTBM x) = some x)
+    (t : Tree) (ro : Roster) (hd : ro.Distinct) (h : t.WF ro) :
+    binaryUnmarshal cd (binaryMarshal cd t) = .ok t := by
+  simp only [binaryUnmarshal, binaryMarshal, hcodec2, h.1]
+  exact c06_marshal_roundtrip cd hcodec t ro hd h
+
+/-- the servers a description names -/
+def sidsOf : TM → List Nat
+  | .nil => []
+  | .node _ sid c s => sid :: (sidsOf c ++ sidsOf s)
+
+private theorem makeForest_unknown (ro : List Server) :
+    ∀ f, (∃ sid ∈ sidsOf f, search ro sid = none) → makeForest ro f = none := by
+  intro f
+  induction f with
+  | nil => intro ⟨_, h, _⟩; simp [sidsOf] at h
+  | node nid sid c s ihc ihs =>
+    intro ⟨x, hx, hs⟩
+    simp only [sidsOf, List.mem_cons, List.mem_append] at hx
+    simp only [makeForest]
+    rcases hx with hx | hx | hx
+    · subst hx; simp [hs]
+    · rw [ihc ⟨x, hx, hs⟩]; split <;> simp_all
+    · rw [ihs ⟨x, hx, hs⟩]; split <;> simp_all
+
+/-- **malformed and mismatching descriptions are refused with an error** (there is no other
+outcome: no tree, no panic): a missing roster, a roster with another id, a description without
+exactly one root, a description naming a server that is not in the roster. -/
+theorem c06_reject_malformed (tm : TreeMarshal) :
+    makeTree tm none = .error .noRoster ∧
+    (∀ ro : Roster, ro.id ≠ tm.rosterId → makeTree tm (some ro) = .error .rosterId) ∧
+    (∀ ro : Roster, ro.id = tm.rosterId → tm.children.len ≠ 1 → makeTree tm (some ro) = .error .notOneRoot) ∧
+    (∀ ro : Roster, ro.id = tm.rosterId → tm.children.len = 1 →
+      (∃ sid ∈ sidsOf tm.children, search ro.list sid = none) → makeTree tm (some ro) = .error .unknownServer) := by
+  refine ⟨rfl, ?_, ?_, ?_⟩
+  · intro ro h; simp [makeTree, h]
+  · intro ro h1 h2; simp [makeTree, h1, h2]
+  · intro ro h1 h2 h3; simp [makeTree, h1, h2, makeForest_unknown ro.list _ h3]
+
+/-- whatever `MakeTree` accepts carries the identifiers of the description and the roster given -/
+theorem makeTree_ok {tm : TreeMarshal} {ro : Option Roster} {t : Tree} (h : makeTree tm ro = .ok t) :
+    t.id = tm.treeId ∧ t.roster = ro ∧ ∃ r, ro = some r ∧ r.id = tm.rosterId := by
+  unfold makeTree at h
+  split at h
+  · simp at h
+  · next r =>
+    split at h
+    · simp at h
+    · next hid =>
+      split at h
+      · simp at h
+      · split at h
+        · simp at h
+        · simp only [Except.ok.injEq] at h
+          subst h
+          exact ⟨rfl, rfl, r, rfl, by simpa using hid⟩
+
+/-! ### the aggregates are the sums the property speaks of -/
+
+/-- sum of the keys of all nodes of a forest -/
+def keySum : TN → Nat
+  | .nil => 0
+  | .node _ _ key _ _ c s => key + keySum c + keySum s
+
+private theorem aggregate_sum (f : TN) : (aggregate f).2 = keySum f := by
+  induction f with
+  | nil => rfl
+  | node nid sid key idx agg c s ihc ihs => simp [aggregate, keySum, ihc, ihs]
+
+/-- `computeSubtreeAggregate` stores at every node the sum of the keys of its subtree -/
+theorem aggregate_root (nid sid key idx agg : Nat) (c s : TN) :
+    ∃ c' s', (aggregate (.node nid sid key idx agg c s)).1 = .node nid sid key idx (key + keySum c) c' s' := by
+  exact ⟨(aggregate c).1, (aggregate s).1, by simp [aggregate, aggregate_sum]⟩
+
+private theorem aggregate_idem (f : TN) : aggregate (aggregate f).1 = aggregate f := by
+  induction f with
+  | nil => rfl
+  | node nid sid key idx agg c s ihc ihs => simp [aggregate, ihc, ihs]
+
+private theorem copyTree_aggregate (f : TN) : copyTree (aggregate f).1 = copyTree f := by
+  induction f with
+  | nil => rfl
+  | node nid sid key idx agg c s ihc ihs => simp [aggregate, copyTree, ihc, ihs]
+
+private theorem nodesOK_aggregate (ro : List Server) (f : TN) (h : NodesOK ro f) : NodesOK ro (aggregate f).1 := by
+  induction f with
+  | nil => trivial
+  | node nid sid key idx agg c s ihc ihs => exact ⟨h.1, ihc h.2.1, ihs h.2.2⟩
+
+/-- non-vacuity: every tree made by `NewTree` from nodes that point at their servers is well formed -/
+theorem newTree_wf (id : Nat) (ro : Roster) (root : TN) (h1 : (copyTree root).len = 1) (h2 : NodesOK ro.list root) :
+    (newTree id ro root).WF ro :=
+  ⟨rfl, by simp [newTree, copyTree_aggregate, h1], nodesOK_aggregate _ _ h2, by simp [newTree, aggregate_idem]⟩
+
+example : ∃ (t : Tree) (ro : Roster), ro.Distinct ∧ t.WF ro ∧ makeTree (makeTreeMarshal t) (some ro) = .ok t := by
+  let ro : Roster := { id := 9, list := [⟨3, 4⟩, ⟨5, 6⟩, ⟨7, 8⟩] }
+  let root : TN := .node 3 3 4 0 0 (.node 5 5 6 1 0 .nil (.node 7 7 8 2 0 .nil .nil)) .nil
+  have hd : ro.Distinct := by unfold Roster.Distinct; decide
+  have hw : (newTree 1 ro root).WF ro := newTree_wf 1 ro root (by decide) (by simp [NodesOK, ro, root])
+  exact ⟨_, ro, hd, hw, c06_roundtrip _ ro hd hw⟩
+
+/-- the premise "pairwise distinct servers" is needed: with a server listed twice, a node placed on
+the second occurrence comes back at the first (`Roster.Search` returns the first match) -/
+example : ∃ (t t' : Tree) (ro : Roster), t.WF ro ∧ makeTree (makeTreeMarshal t) (some ro) = .ok t' ∧ t' ≠ t := by
+  refine ⟨newTree 1 { id := 9, list := [⟨3, 4⟩, ⟨3, 4⟩] } (.node 3 3 4 1 0 .nil .nil), _,
+    { id := 9, list := [⟨3, 4⟩, ⟨3, 4⟩] }, newTree_wf _ _ _ (by decide) (by simp [NodesOK]), rfl, by decide⟩
+
+
+/-! ### history part: the tree store under arbitrary sequences of control messages -/
+
+private theorem lookup_insert_self {α} (l : List (Nat × α)) (k : Nat) (v : α) : lookup (insert l k v) k = some v := by
+  induction l with
+  | nil => simp [insert, lookup]
+  | cons p rest ih =>
+    obtain ⟨k', v'⟩ := p
+    by_cases h : k' = k
+    · simp [insert, lookup, h]
+    · simp [insert, lookup, h, ih]
+
+private theorem lookup_insert_ne {α} (l : List (Nat × α)) (k k' : Nat) (v : α) (h : k' ≠ k) :
+    lookup (insert l k v) k' = lookup l k' := by
+  induction l with
+  | nil => simp [insert, lookup, Ne.symm h]
+  | cons p rest ih =>
+    obtain ⟨k2, v2⟩ := p
+    by_cases h2 : k2 = k
+    · subst h2; simp [insert, lookup, Ne.symm h]
+    · by_cases h3 : k2 = k'
+      · subst h3; simp [insert, lookup, h2]
+      · simp [insert, lookup, h2, h3, ih]
+
+private theorem lookup_erase_self {α} (l : List (Nat × α)) (k : Nat) : lookup (erase l k) k = none := by
+  unfold erase
+  induction l with
+  | nil => rfl
+  | cons p rest ih =>
+    obtain ⟨k', v'⟩ := p
+    by_cases h : k' = k
+    · simp [h]; simpa using ih
+    · simp [h, lookup]; simpa using ih
+
+private theorem lookup_erase_ne {α} (l : List (Nat × α)) (k k' : Nat) (h : k' ≠ k) :
+    lookup (erase l k) k' = lookup l k' := by
+  unfold erase
+  induction l with
+  | nil => rfl
+  | cons p rest ih =>
+    obtain ⟨k2, v2⟩ := p
+    by_cases h2 : k2 = k
+    · subst h2
+      have : ¬ k2 = k' := fun e => h e.symm
+      simp [lookup, this]; simpa using ih
+    · by_cases h3 : k2 = k'
+      · subst h3; simp [h2, lookup]
+      · simp [h2, lookup, h3]; simpa using ih
+
+private theorem get_setTree_self (o : Ovl) (t : Tree) : (o.setTree t).get t.id = some t := by
+  simp [Ovl.get, Ovl.setTree, lookup_insert_self]
+
+private theorem lookup_setTree_ne (o : Ovl) (t : Tree) (id : Nat) (h : id ≠ t.id) :
+    lookup (o.setTree t).store id = lookup o.store id := by
+  simp [Ovl.setTree, lookup_insert_ne _ _ _ _ h]
+
+private theorem get_setTree_ne (o : Ovl) (t : Tree) (id : Nat) (h : id ≠ t.id) : (o.setTree t).get id = o.get id := by
+  simp [Ovl.get, lookup_setTree_ne o t id h]
+
+private theorem requested_get (o : Ovl) (id : Nat) (h : o.isRequested id = true) : o.get id = none := by
+  simp only [Ovl.isRequested, beq_iff_eq] at h
+  simp [Ovl.get, h]
+
+/-- what `handleSendTree` can do: nothing, or store the tree rebuilt from a description whose id
+is non-nil and waiting (requested and empty) -/
+private theorem handleSendTree_cases (o : Ovl) (tm : Option TreeMarshal) (ro : Option Roster) :
+    handleSendTree o tm ro = o ∨
+    ∃ tm' r t, tm = some tm' ∧ ro = some r ∧ tm'.treeId ≠ 0 ∧ o.isRequested tm'.treeId = true ∧
+      makeTree tm' (some r) = .ok t ∧ handleSendTree o tm ro = o.setTree t := by
+  unfold handleSendTree
+  cases tm with
+  | none => exact Or.inl rfl
+  | some tm' =>
+    simp only
+    by_cases h0 : tm'.treeId = 0
+    · simp [h0]
+    · simp only [h0, if_false]
+      cases ro with
+      | none => exact Or.inl rfl
+      | some r =>
+        simp only
+        cases hr : o.isRequested tm'.treeId with
+        | false => simp
+        | true =>
+          simp only [Bool.not_true, Bool.false_eq_true, if_false]
+          cases hm : makeTree tm' (some r) with
+          | error e => exact Or.inl rfl
+          | ok t => exact Or.inr ⟨tm', r, t, rfl, rfl, h0, hr, hm, rfl⟩
+
+private theorem checkPending_eq (o : Ovl) (ro : Roster) :
+    checkPending o ro = match lookup o.pending ro.id with
+      | none => o
+      | some sl => { sl.foldl (pendStep ro) o with pending := erase (sl.foldl (pendStep ro) o).pending ro.id } := by
+  unfold checkPending
+  cases lookup o.pending ro.id <;> rfl
+
+private theorem pendStep_cases (ro : Roster) (o : Ovl) (tm : TreeMarshal) :
+    pendStep ro o tm = o ∨ ∃ t, o.get tm.treeId = none ∧ makeTree tm (some ro) = .ok t ∧ pendStep ro o tm = o.setTree t := by
+  unfold pendStep
+  cases hg : o.get tm.treeId with
+  | some t0 => simp
+  | none =>
+    simp only [Option.isSome_none, Bool.false_eq_true, if_false]
+    cases hm : makeTree tm (some ro) with
+    | error e => exact Or.inl rfl
+    | ok t => exact Or.inr ⟨t, by simp, rfl, rfl⟩
+
+/-- a property of the overlay state that survives storing a tree into an empty slot survives the
+whole roster handler -/
+private theorem fold_pendStep_inv (P : Ovl → Prop) (ro : Roster)
+    (hstep : ∀ o tm t, P o → o.get tm.treeId = none → makeTree tm (some ro) = .ok t → P (o.setTree t)) :
+    ∀ (sl : List TreeMarshal) (o : Ovl), P o → P (sl.foldl (pendStep ro) o) := by
+  intro sl
+  induction sl with
+  | nil => intro o h; exact h
+  | cons tm rest ih =>
+    intro o h
+    simp only [List.foldl_cons]
+    apply ih
+    rcases pendStep_cases ro o tm with e | ⟨t, h1, h2, e⟩
+    · rw [e]; exact h
+    · rw [e]; exact hstep o tm t h h1 h2
+
+/-- **a message from a peer never replaces a tree that is stored** — whatever the message (solicited
+or not, repeated, with a matching or a foreign roster, in the deprecated roster-then-tree form). -/
+theorem c06_never_replaces (o : Ovl) (m : Msg) (id : Nat) (t : Tree) (h : o.get id = some t) :
+    (handle o m).1.get id = some t := by
+  have hst : ∀ (tm : Option TreeMarshal) (ro : Option Roster), (handleSendTree o tm ro).get id = some t := by
+    intro tm ro
+    rcases handleSendTree_cases o tm ro with e | ⟨tm', r, t', _, _, _, hreq, hmk, e⟩
+    · rw [e]; exact h
+    · rw [e, get_setTree_ne _ _ _ ?_]; exact h
+      intro heq
+      have := requested_get o tm'.treeId hreq
+      rw [← (makeTree_ok hmk).1, ← heq, h] at this
+      simp at this
+  cases m with
+  | requestTree tid v =>
+    simp only [handle]
+    split
+    · exact h
+    · split <;> exact h
+  | responseTree tm ro => exact hst tm ro
+  | treeMarshal tm =>
+    simp only [handle]
+    split
+    · exact h
+    · split
+      · exact h
+      · split
+        · simpa [Ovl.get] using h
+        · exact hst _ _
+  | requestRoster rid => exact h
+  | sendRoster ro =>
+    simp only [handle]
+    split
+    · exact h
+    · rw [checkPending_eq]
+      split
+      · exact h
+      · next sl _ =>
+        apply fold_pendStep_inv (fun o => o.get id = some t) ro _ sl o h
+        intro o' tm t' hP hnone hmk
+        rw [get_setTree_ne _ _ _ ?_]; exact hP
+        intro heq
+        rw [← (makeTree_ok hmk).1, ← heq, hP] at hnone
+        simp at hnone
+
+/-- **a tree sent in a `ResponseTree`, or in the deprecated `TreeMarshal` form with a roster known
+from a live instance, is stored only into a slot that is requested and still empty** -/
+theorem c06_only_requested_partial (o : Ovl) (id : Nat) :
+    (∀ tm ro, (handle o (.responseTree tm ro)).1.get id ≠ o.get id → o.isRequested id = true) ∧
+    (∀ tm, (handle o (.treeMarshal tm)).1.get id ≠ o.get id → o.isRequested id = true) := by
+  have hst : ∀ (tm : Option TreeMarshal) (ro : Option Roster),
+      (handleSendTree o tm ro).get id ≠ o.get id → o.isRequested id = true := by
+    intro tm ro hne
+    rcases handleSendTree_cases o tm ro with e | ⟨tm', r, t', _, _, _, hreq, hmk, e⟩
+    · rw [e] at hne; exact absurd rfl hne
+    · by_cases hid : id = t'.id
+      · rw [hid, (makeTree_ok hmk).1]; exact hreq
+      · rw [e, get_setTree_ne _ _ _ hid] at hne; exact absurd rfl hne
+  refine ⟨fun tm ro => hst tm ro, ?_⟩
+  intro tm hne
+  simp only [handle] at hne
+  split at hne
+  · exact absurd rfl hne
+  · split at hne
+    · exact absurd rfl hne
+    · split at hne
+      · exact absurd (by simp [Ovl.get]) hne
+      · exact hst _ _ hne
+
+/-- the roster handler (`checkPendingTreeMarshal`) fills only empty slots, and only with trees whose
+description was parked for that roster id -/
+theorem c06_roster_fills_empty_partial (o : Ovl) (ro : Roster) (id : Nat)
+    (hne : (handle o (.sendRoster ro)).1.get id ≠ o.get id) :
+    o.get id = none ∧ ∃ sl, lookup o.pending ro.id = some sl ∧ ∃ tm ∈ sl, tm.treeId = id := by
+  simp only [handle] at hne
+  split at hne
+  · exact absurd rfl hne
+  · rw [checkPending_eq] at hne
+    split at hne
+    · exact absurd rfl hne
+    · next sl hsl =>
+      refine ⟨?_, sl, hsl, ?_⟩
+      · cases hg : o.get id with
+        | none => rfl
+        | some t =>
+          exfalso
+          have := c06_never_replaces o (.sendRoster ro) id t hg
+          simp only [handle] at this
+          rw [if_neg (by assumption), checkPending_eq, hsl] at this
+          exact hne (by rw [this, hg])
+      · -- some step of the fold changed slot `id`
+        have key : ∀ (l : List TreeMarshal) (o' : Ovl), (l.foldl (pendStep ro) o').get id ≠ o'.get id →
+            ∃ tm ∈ l, tm.treeId = id := by
+          intro l
+          induction l with
+          | nil => intro o' h; exact absurd rfl h
+          | cons tm rest ih =>
+            intro o' h
+            simp only [List.foldl_cons] at h
+            by_cases hstep : (pendStep ro o' tm).get id = o'.get id
+            · rw [← hstep] at h
+              obtain ⟨x, hx, e⟩ := ih _ h
+              exact ⟨x, List.mem_cons_of_mem _ hx, e⟩
+            · rcases pendStep_cases ro o' tm with e | ⟨t, _, hmk, e⟩
+              · rw [e] at hstep; exact absurd rfl hstep
+              · refine ⟨tm, List.mem_cons_self, ?_⟩
+                apply Classical.byContradiction
+                intro hid
+                rw [e, get_setTree_ne _ _ _ (by rw [(makeTree_ok hmk).1]; exact fun h => hid h.symm)] at hstep
+                exact hstep rfl
+        exact key sl o hne
+
+/-- a description that `MakeTree` refuses is not stored, whichever message brings it -/
+theorem c06_malformed_not_stored (o : Ovl) (tm : TreeMarshal) (ro : Option Roster) (e : Err)
+    (h : makeTree tm ro = .error e) : (handle o (.responseTree (some tm) ro)).1 = o := by
+  simp only [handle]
+  rcases handleSendTree_cases o (some tm) ro with e' | ⟨tm', r, t, h1, h2, _, _, hmk, _⟩
+  · exact e'
+  · simp only [Option.some.injEq] at h1
+    subst h1; subst h2
+    rw [h] at hmk; simp at hmk
+
+/-- a repeated roster message stores nothing: the descriptions parked for its id were forgotten
+when the first one was handled (6793864) -/
+theorem c06_repeated_roster_noop (o : Ovl) (ro : Roster) :
+    (handle (handle o (.sendRoster ro)).1 (.sendRoster ro)).1 = (handle o (.sendRoster ro)).1 := by
+  have hnone : lookup (checkPending o ro).pending ro.id = none := by
+    rw [checkPending_eq]
+    cases h : lookup o.pending ro.id with
+    | none => simpa using h
+    | some sl => simp [lookup_erase_self]
+  simp only [handle]
+  split
+  · rfl
+  · show checkPending (checkPending o ro) ro = checkPending o ro
+    rw [checkPending_eq (checkPending o ro) ro, hnone]
+
+/-! #### everything stored was asked for at some point, or registered locally -/
+
+/-- the invariant: stored trees, waiting slots and parked descriptions all carry identifiers that
+were requested by this server at some point (or, for stored trees, registered locally) -/
+def StoreInv (o : Ovl) : Prop :=
+  (∀ id t, o.get id = some t → id ∈ o.everReq ∨ id ∈ o.locals) ∧
+  (∀ id, o.isRequested id = true → id ∈ o.everReq) ∧
+  (∀ rid sl tm, lookup o.pending rid = some sl → tm ∈ sl → tm.treeId ∈ o.everReq)
+
+private theorem setTree_inv (o : Ovl) (t : Tree) (h : StoreInv o) (ht : t.id ∈ o.everReq ∨ t.id ∈ o.locals) :
+    StoreInv (o.setTree t) := by
+  obtain ⟨h1, h2, h3⟩ := h
+  refine ⟨?_, ?_, h3⟩
+  · intro id t' hg
+    by_cases hid : id = t.id
+    · subst hid; exact ht
+    · rw [get_setTree_ne _ _ _ hid] at hg; exact h1 id t' hg
+  · intro id hr
+    by_cases hid : id = t.id
+    · subst hid
+      simp [Ovl.isRequested, Ovl.setTree, lookup_insert_self] at hr
+    · apply h2 id
+      simpa [Ovl.isRequested, lookup_setTree_ne o t id hid] using hr
+
+private theorem handleSendTree_inv (o : Ovl) (tm : Option TreeMarshal) (ro : Option Roster) (h : StoreInv o) :
+    StoreInv (handleSendTree o tm ro) := by
+  rcases handleSendTree_cases o tm ro with e | ⟨tm', r, t, _, _, _, hreq, hmk, e⟩
+  · rw [e]; exact h
+  · rw [e]
+    apply setTree_inv o t h
+    rw [(makeTree_ok hmk).1]
+    exact Or.inl (h.2.1 _ hreq)
+
+private theorem handle_inv (o : Ovl) (m : Msg) (h : StoreInv o) : StoreInv (handle o m).1 := by
+  cases m with
+  | requestTree tid v =>
+    simp only [handle]
+    split
+    · exact h
+    · split <;> exact h
+  | responseTree tm ro => exact handleSendTree_inv o tm ro h
+  | treeMarshal tm =>
+    simp only [handle]
+    split
+    · exact h
+    · next hnz =>
+      split
+      · exact h
+      · next hreq =>
+        have hreq' : o.isRequested tm.treeId = true := by simpa using hreq
+        split
+        · obtain ⟨h1, h2, h3⟩ := h
+          refine ⟨h1, h2, ?_⟩
+          intro rid sl tm' hl hm
+          by_cases hr : rid = tm.rosterId
+          · subst hr
+            simp only [lookup_insert_self, Option.some.injEq] at hl
+            subst hl
+            simp only [List.mem_append, List.mem_singleton] at hm
+            rcases hm with hm | hm
+            · cases hold : lookup o.pending tm.rosterId with
+              | none => simp [hold] at hm
+              | some l => simp [hold] at hm; exact h3 _ l tm' hold hm
+            · subst hm; exact h2 _ hreq'
+          · rw [lookup_insert_ne _ _ _ _ hr] at hl
+            exact h3 rid sl tm' hl hm
+        · exact handleSendTree_inv o _ _ h
+  | requestRoster rid => exact h
+  | sendRoster ro =>
+    simp only [handle]
+    split
+    · exact h
+    · rw [checkPending_eq]
+      split
+      · exact h
+      · next sl hsl =>
+        -- the fold keeps the invariant and does not touch `pending`, `everReq`
+        have hfold : StoreInv (sl.foldl (pendStep ro) o) ∧ (sl.foldl (pendStep ro) o).pending = o.pending := by
+          have hall : ∀ tm ∈ sl, tm.treeId ∈ o.everReq := fun tm hm => h.2.2 _ sl tm hsl hm
+          clear hsl
+          induction sl generalizing o with
+          | nil => exact ⟨h, rfl⟩
+          | cons tm rest ih =>
+            simp only [List.foldl_cons]
+            rcases pendStep_cases ro o tm with e | ⟨t, _, hmk, e⟩
+            · rw [e]; exact ih o h (fun x hx => hall x (List.mem_cons_of_mem _ hx))
+            · rw [e]
+              have hi : StoreInv (o.setTree t) := setTree_inv o t h (by
+                rw [(makeTree_ok hmk).1]; exact Or.inl (hall tm List.mem_cons_self))
+              have := ih (o.setTree t) hi (fun x hx => hall x (List.mem_cons_of_mem _ hx))
+              exact ⟨this.1, this.2⟩
+        obtain ⟨⟨f1, f2, f3⟩, fp⟩ := hfold
+        refine ⟨f1, f2, ?_⟩
+        intro rid sl' tm hl hm
+        simp only at hl
+        by_cases hr : rid = ro.id
+        · subst hr; rw [lookup_erase_self] at hl; simp at hl
+        · rw [lookup_erase_ne _ _ _ hr] at hl
+          exact f3 rid sl' tm hl hm
+
+private theorem localStep_inv (o : Ovl) (l : Local) (h : StoreInv o) : StoreInv (localStep o l) := by
+  obtain ⟨h1, h2, h3⟩ := h
+  cases l with
+  | request id =>
+    simp only [localStep]
+    refine ⟨?_, ?_, ?_⟩
+    · intro id' t hg
+      have : o.get id' = some t := by
+        by_cases hs : (lookup o.store id).isSome
+        · simpa [Ovl.get, hs] using hg
+        · by_cases hid : id' = id
+          · subst hid; simp [Ovl.get, hs, lookup_insert_self] at hg
+          · simpa [Ovl.get, hs, lookup_insert_ne _ _ _ _ hid] using hg
+      rcases h1 id' t this with h | h
+      · exact Or.inl (List.mem_cons_of_mem _ h)
+      · exact Or.inr h
+    · intro id' hr
+      by_cases hid : id' = id
+      · subst hid; exact List.mem_cons_self
+      · apply List.mem_cons_of_mem
+        apply h2
+        by_cases hs : (lookup o.store id).isSome
+        · simpa [Ovl.isRequested, hs] using hr
+        · simpa [Ovl.isRequested, hs, lookup_insert_ne _ _ _ _ hid] using hr
+    · intro rid sl tm hl hm; exact List.mem_cons_of_mem _ (h3 rid sl tm hl hm)
+  | unrequest id =>
+    simp only [localStep]
+    split
+    · refine ⟨?_, ?_, h3⟩
+      · intro id' t hg
+        by_cases hid : id' = id
+        · subst hid; simp [Ovl.get, lookup_erase_self] at hg
+        · exact h1 id' t (by simpa [Ovl.get, lookup_erase_ne _ _ _ hid] using hg)
+      · intro id' hr
+        by_cases hid : id' = id
+        · subst hid; simp [Ovl.isRequested, lookup_erase_self] at hr
+        · exact h2 id' (by simpa [Ovl.isRequested, lookup_erase_ne _ _ _ hid] using hr)
+    · exact ⟨h1, h2, h3⟩
+  | register t =>
+    simp only [localStep]
+    have := setTree_inv { o with locals := t.id :: o.locals } t
+      ⟨fun id t' hg => (h1 id t' hg).elim Or.inl (fun h => Or.inr (List.mem_cons_of_mem _ h)), h2, h3⟩
+      (Or.inr List.mem_cons_self)
+    exact this
+  | «instance» t =>
+    simp only [localStep]
+    split
+    · have := setTree_inv { o with locals := t.id :: o.locals } t
+        ⟨fun id t' hg => (h1 id t' hg).elim Or.inl (fun h => Or.inr (List.mem_cons_of_mem _ h)), h2, h3⟩
+        (Or.inr List.mem_cons_self)
+      exact this
+    · exact ⟨h1, h2, h3⟩
+  | expire id =>
+    simp only [localStep]
+    refine ⟨?_, ?_, h3⟩
+    · intro id' t hg
+      by_cases hid : id' = id
+      · subst hid; simp [Ovl.get, lookup_erase_self] at hg
+      · exact h1 id' t (by simpa [Ovl.get, lookup_erase_ne _ _ _ hid] using hg)
+    · intro id' hr
+      by_cases hid : id' = id
+      · subst hid; simp [Ovl.isRequested, lookup_erase_self] at hr
+      · exact h2 id' (by simpa [Ovl.isRequested, lookup_erase_ne _ _ _ hid] using hr)
+
+/-- **never a tree the server did not ask for** (as far as the code enforces it): after any
+history of peer messages and local events, every stored tree carries an identifier this server
+requested at some point or registered itself -/
+theorem c06_stored_was_requested_partial (evs : List Ev) :
+    ∀ id t, (runEv {} evs).get id = some t → id ∈ (runEv {} evs).everReq ∨ id ∈ (runEv {} evs).locals := by
+  have h0 : StoreInv ({} : Ovl) := ⟨by intro id t h; simp [Ovl.get, lookup] at h,
+    by intro id h; simp [Ovl.isRequested, lookup] at h, by intro rid sl tm h; simp [lookup] at h⟩
+  have : ∀ (evs : List Ev) (o : Ovl), StoreInv o → StoreInv (runEv o evs) := by
+    intro evs
+    induction evs with
+    | nil => intro o h; exact h
+    | cons e rest ih =>
+      intro o h
+      simp only [runEv, List.foldl_cons]
+      apply ih
+      cases e with
+      | peer m => exact handle_inv o m h
+      | loc l => exact localStep_inv o l h
+  exact (this evs {} h0).1
+
+/-! #### the full-strength statement, and the one history it fails on -/
+
+/-- the statement asked for: a message from a peer changes what is stored under an identifier only
+if that identifier is, at that moment, requested and still empty -/
+def C06_only_requested_full : Prop :=
+  ∀ (evs : List Ev) (m : Msg) (id : Nat),
+    (handle (runEv {} evs) m).1.get id ≠ (runEv {} evs).get id → (runEv {} evs).isRequested id = true
+
+/-- the witness: request tree 1, receive its description in the deprecated form (roster unknown:
+parked), withdraw the request (it could not be sent), receive the roster -/
+def replayWitness : List Ev × Msg :=
+  let ro : Roster := { id := 1, list := [⟨3, 4⟩, ⟨5, 6⟩, ⟨7, 8⟩] }
+  let tm : TreeMarshal := { treeId := 1, rosterId := 1, children := .node 3 3 (.node 5 5 .nil (.node 7 7 .nil .nil)) .nil }
+  ([.loc (.request 1), .peer (.treeMarshal tm), .loc (.unrequest 1)], .sendRoster ro)
+
+/-- **it does not hold on the code as it is**: a description parked while its tree was requested is
+stored when its roster arrives, even though the request has been withdrawn in between (the roster
+handler tests "not present", not "requested").  Replayed against the real overlay by the harness
+(`witness-replay`). -/
+theorem c06_only_requested_full_fails : ¬ C06_only_requested_full := by
+  intro h
+  have := h replayWitness.1 replayWitness.2 1 (by decide)
+  exact absurd this (by decide)
+
+/-! #### a tree learnt from a peer is the sender's tree -/
+
+/-- **request / response**: a server that holds `t` answers a version-1 request with the description
+and the roster; a server waiting for `t.id` that handles this answer stores exactly `t`.
+**Deprecated form**: a version-0 request is answered with the description alone; the receiver,
+knowing no roster with that id, parks it and asks for the roster; the sender answers from its store;
+the receiver then stores exactly `t`. -/
+theorem c06_peer_learns_same (snd rcv : Ovl) (t : Tree) (ro : Roster) (hd : ro.Distinct) (hw : t.WF ro)
+    (hid : t.id ≠ 0) (hrid : ro.id ≠ 0) (hs : snd.get t.id = some t) (hr : rcv.isRequested t.id = true) :
+    (∀ v, v ≠ 0 →
+      (handle snd (.requestTree t.id v)).2 = [.responseTree (makeTreeMarshal t) (some ro)] ∧
+      (handle rcv (.responseTree (some (makeTreeMarshal t)) (some ro))).1.get t.id = some t) ∧
+    ((handle snd (.requestTree t.id 0)).2 = [.treeMarshal (makeTreeMarshal t)] ∧
+      (rcv.insts.filter (fun r => r.id = ro.id) = [] → lookup rcv.pending ro.id = none →
+        snd.getRoster ro.id = some ro →
+        (handle rcv (.treeMarshal (makeTreeMarshal t))).2 = [.requestRoster ro.id] ∧
+        (handle snd (.requestRoster ro.id)).2 = [.roster (some ro)] ∧
+        (handle (handle rcv (.treeMarshal (makeTreeMarshal t))).1 (.sendRoster ro)).1.get t.id = some t)) := by
+  have hmk := c06_roundtrip t ro hd hw
+  have htm : (makeTreeMarshal t).treeId = t.id ∧ (makeTreeMarshal t).rosterId = ro.id := by
+    simp [makeTreeMarshal, hw.1]
+  have hstore : (handleSendTree rcv (some (makeTreeMarshal t)) (some ro)).get t.id = some t := by
+    simp only [handleSendTree, htm.1, hid, if_false, hr, Bool.not_true, Bool.false_eq_true, hmk]
+    exact get_setTree_self rcv t
+  refine ⟨?_, ?_, ?_⟩
+  · intro v hv
+    exact ⟨by simp [handle, hs, hv, hw.1], hstore⟩
+  · simp [handle, hs]
+  · intro hinst hpend hros
+    have hpark : (handle rcv (.treeMarshal (makeTreeMarshal t))) =
+        ({ rcv with pending := insert rcv.pending ro.id [makeTreeMarshal t] }, [.requestRoster ro.id]) := by
+      simp [handle, htm.1, htm.2, hid, hr, hinst, hpend]
+    refine ⟨by rw [hpark], by simp [handle, hros], ?_⟩
+    rw [hpark]
+    simp only [handle, hrid, if_false]
+    rw [checkPending_eq]
+    simp only [lookup_insert_self, List.foldl_cons, List.foldl_nil]
+    have hnone : ({ rcv with pending := insert rcv.pending ro.id [makeTreeMarshal t] } : Ovl).get (makeTreeMarshal t).treeId = none := by
+      rw [htm.1]; simpa [Ovl.get] using requested_get rcv t.id hr
+    simp only [pendStep, hnone, Option.isSome_none, Bool.false_eq_true, if_false, hmk]
+    simp [Ovl.get, Ovl.setTree, lookup_insert_self]
+
+/-- non-vacuity of `c06_peer_learns_same`: a sender that registered a well-formed tree, a receiver
+that requested it -/
+example : ∃ (snd rcv : Ovl) (t : Tree) (ro : Roster), ro.Distinct ∧ t.WF ro ∧ t.id ≠ 0 ∧ ro.id ≠ 0 ∧
+    snd.get t.id = some t ∧ rcv.isRequested t.id = true ∧ snd.getRoster ro.id = some ro := by
+  let ro : Roster := { id := 9, list := [⟨3, 4⟩, ⟨5, 6⟩] }
+  let t := newTree 1 ro (.node 3 3 4 0 0 (.node 5 5 6 1 0 .nil .nil) .nil)
+  exact ⟨localStep {} (.register t), localStep {} (.request 1), t, ro, by unfold Roster.Distinct; decide,
+    newTree_wf 1 ro _ (by decide) (by simp [NodesOK, ro]), by decide, by decide, by decide, by decide, by decide⟩
 end C06
